@@ -76,18 +76,26 @@ func items(tier string) []item {
 		tf := mk(2, 1, false, false, false)
 		tf.LongTimeout = true
 		out = append(out, item{tf, 2, vsched.ModeDelay, true, 2})
+		all(mk(4, 2, false, false, false), 24)
+		all(mk(5, 1, false, false, false), 120)
+		all(mk(4, 1, true, false, true), 120)
+		all(mk(3, 2, true, false, false), 20)
+		if netw {
+			all(mk(3, 2, true, true, true), 20)
+			all(mk(4, 1, true, true, false), 120)
+		}
 		if thorough {
-			all(mk(4, 2, false, false, false), 24)
-			all(mk(5, 1, false, false, false), 120)
 			all(mk(3, 3, false, false, false), 20)
-			all(mk(4, 1, true, false, true), 120)
-			all(mk(3, 2, true, false, false), 20)
+			all(mk(5, 2, false, false, false), 120)
+			all(mk(6, 1, false, false, false), 720)
+			all(mk(4, 2, true, false, false), 24)
+			all(mk(5, 1, true, false, true), 120)
 			tf3 := mk(3, 1, true, false, true)
 			tf3.LongTimeout = true
 			out = append(out, item{tf3, 3, vsched.ModeDelay, true, 6})
 			if netw {
-				all(mk(3, 2, true, true, true), 20)
-				all(mk(4, 1, true, true, false), 120)
+				all(mk(4, 2, true, true, false), 24)
+				all(mk(5, 1, true, true, true), 120)
 			}
 		}
 	}
